@@ -214,6 +214,79 @@ Proof. exact interference_with_global_write. Qed.
 Print Assumptions C15_interference_with_global_write.
 
 (* ------------------------------------------------------------------ *)
+(** shared state that IS written after init: caches.
+
+    The one package-level variable written after init(), text/hyphen.
+    dictionariesCache (under its mutex = atomic steps), is a memo cache of
+    parseHyphDic, a function of the embedded file only.  `readonly` does not
+    hold for such steps; what holds is weaker and sufficient: every step keeps
+    an invariant of the shared state under which what it computes does not
+    depend on that state (`benign`). *)
+Theorem C15_benign_noninterference :
+  forall (G C : Type) (I : G -> Prop) (g0 g1 : G) (progs : list (C * list (@step G C))) (sched : list nat),
+  I g0 -> I g1 -> all_benign I progs ->
+  let '(g, ts) := exec sched g0 (start progs) in
+  I g /\ (finished ts -> map fst ts = map (fun p => snd (run_alone (snd p) g1 (fst p))) progs).
+Proof. exact (@benign_noninterference). Qed.
+Print Assumptions C15_benign_noninterference.
+
+Theorem C15_benign_sequential_is_alone :
+  forall (G C : Type) (I : G -> Prop) (g0 g1 : G) (progs : list (C * list (@step G C))),
+  I g0 -> I g1 -> all_benign I progs ->
+  I (fst (run_sequentially g0 progs)) /\
+  snd (run_sequentially g0 progs) = map (fun p => snd (run_alone (snd p) g1 (fst p))) progs.
+Proof. exact (@benign_sequential_is_alone). Qed.
+Print Assumptions C15_benign_sequential_is_alone.
+
+(* a memo cache of a pure function f: renders that look f up through the shared
+   cache end, under every schedule and from any consistent initial cache (empty
+   in a fresh process, filled by earlier renders otherwise), with the context
+   of the cache-free computation: no interference, no history dependence *)
+Theorem C15_memo_cache_transparent :
+  forall (K V C : Type) (keqb : K -> K -> bool), (forall a b, keqb a b = true <-> a = b) ->
+  forall (f : K -> V) (progs : list (C * list (K * (V -> C -> C)))) (sched : list nat) (g0 : @mcache K V),
+  cache_ok keqb f g0 ->
+  let '(g, ts) := exec sched g0 (start (map (memo_prog keqb f) progs)) in
+  cache_ok keqb f g /\ (finished ts -> map fst ts = map (pure_result f) progs).
+Proof. exact (@memo_cache_transparent). Qed.
+Print Assumptions C15_memo_cache_transparent.
+
+(* ... which needs the cached value to be a function of the KEY alone.  The
+   ex/ch ratio cache (text.CharacterRatio) is keyed by the font description but
+   its value is measured with the render's own font configuration: it is sound
+   as part of the render's context (html/tree/style.go gives each root style a
+   new cache), *)
+Theorem C15_ratio_cache_per_render :
+  forall (K V C G : Type) keqb (measure : K -> V) k use,
+  readonly (@ratio_step_local K V C G keqb measure k use) /\
+  forall (g : G) m (c : C), cache_ok keqb measure m ->
+    snd (snd (ratio_step_local keqb measure k use g (m, c))) = use (measure k) c.
+Proof. intros. split; [apply ratio_step_local_readonly|apply ratio_step_local_value]. Qed.
+Print Assumptions C15_ratio_cache_per_render.
+
+(* and unsound as a process-wide one: the second render gets the first one's ratio *)
+Theorem C15_ratio_cache_shared_refuted :
+  exists (m1 m2 : N -> N) (k : N),
+    let r1 := (0%N, [ratio_step_shared N.eqb m1 k (fun v _ => v)]) in
+    let r2 := (0%N, [ratio_step_shared N.eqb m2 k (fun v _ => v)]) in
+    snd (run_sequentially [] [r1; r2]) <> [snd (run_alone (snd r1) [] 0%N); snd (run_alone (snd r2) [] 0%N)].
+Proof. exact ratio_step_shared_refuted. Qed.
+Print Assumptions C15_ratio_cache_shared_refuted.
+
+(* a table shared through a pointer: working on a copy is read-only, adding the
+   offset through the pointer makes the second hyphenation of a word differ *)
+Theorem C15_shared_pointer_copy_readonly : forall id v, readonly (iterate_copy id v).
+Proof. exact iterate_copy_readonly. Qed.
+Print Assumptions C15_shared_pointer_copy_readonly.
+
+Theorem C15_shared_pointer_inplace_refuted :
+  exists g id v,
+    let p := (0%N, [iterate_inplace id v]) in
+    snd (run_sequentially g [p; p]) <> [snd (run_alone (snd p) g 0%N); snd (run_alone (snd p) g 0%N)].
+Proof. exact iterate_inplace_refuted. Qed.
+Print Assumptions C15_shared_pointer_inplace_refuted.
+
+(* ------------------------------------------------------------------ *)
 (** the read-only hypothesis against the source: every syntactic write site on
     a package-level variable outside init() is covered by a reviewed line of
     tools/globalwrites/allow.txt.  (Generated/GlobalWrites.v is rewritten from
@@ -222,6 +295,57 @@ Print Assumptions C15_interference_with_global_write.
 Theorem C15_globals_readonly : not_allowed allowed writes = [].
 Proof. vm_compute. exact eq_refl. Qed.
 Print Assumptions C15_globals_readonly.
+
+(* [writes] also holds the stores THROUGH a local alias of global data found by
+   the typed pass (kinds alias-assign / alias-incdec / alias-range /
+   alias-builtin:  x := g.Ptr; x.Field op= ..  /  p := g[k]; *p = ..).
+
+   What a syntactic write inventory cannot see is a reference into a global's
+   data that leaves the function that loaded it.  Two more inventories bound
+   that, both re-generated from the working tree with go/types:
+
+   escapes   every site where a value of reference-carrying type read from a
+             package-level variable leaves the pure-read position (stored in a
+             local / field / element, passed to a call, returned, put in a
+             composite literal, ranged over, receiver of a method).  Reviewed
+             per (variable, how, callee): a NEW package-level variable handed
+             to per-render objects -- a per-render cache turned into a global
+             -- is not covered and breaks the lemma. *)
+Theorem C15_escaping_globals_reviewed : not_allowed allowed escapes = [].
+Proof. vm_compute. exact eq_refl. Qed.
+Print Assumptions C15_escaping_globals_reviewed.
+
+(* twrites   every store through a reference (p.f = .., s[i] = .., m[k] = ..,
+             *p = .., delete / clear / copy) into an object whose static type
+             is reachable from the type of a package-level variable, unless the
+             object is created in the same function: a type-based
+             over-approximation of "may write into global (or otherwise
+             shared) data", reviewed per (type, operation, function).  A
+             function that starts to store through a pointer obtained from a
+             shared table (e.g. `data := index.Data; data.Index += ..` instead
+             of working on the copy `*index.Data`), or to compute into the
+             declared value it was given, is a new (type, function) pair. *)
+Theorem C15_stores_into_shared_types_reviewed : tnot_allowed tallowed twrites = [].
+Proof. vm_compute. exact eq_refl. Qed.
+Print Assumptions C15_stores_into_shared_types_reviewed.
+
+(* every range over a Go map outside init() is either one of the modelled
+   sites (theorems C15_site_perm_invariant_* above) or reviewed as
+   order-insensitive, per (function, map type, shape of the body) *)
+Theorem C15_map_ranges_reviewed : mnot_allowed mallowed map_ranges = [].
+Proof. vm_compute. exact eq_refl. Qed.
+Print Assumptions C15_map_ranges_reviewed.
+
+(* sanity of the typed inventory against the syntactic one (two independent
+   resolutions of the same source): every escaping variable, and every variable
+   of reference-carrying type, is a package-level variable the parser listed.
+   (An escaping variable need not be of reference-carrying type itself: slicing
+   a package-level array, `g[:]`, hands out a reference to it.) *)
+Theorem C15_inventories_consistent :
+  forallb (fun w => existsb (String.eqb (gw_var w)) globals) escapes = true /\
+  forallb (fun g => existsb (String.eqb g) globals) ref_globals = true.
+Proof. split; vm_compute; exact eq_refl. Qed.
+Print Assumptions C15_inventories_consistent.
 
 (* precondition of C15_site_perm_invariant_unpack_single against the source:
    every construction of a tree.ResumeStack in the module is a composite
